@@ -4,19 +4,79 @@ Import ListNotations.
 From V Require Import Valid.Hier Valid.FlatRegion.
 Local Open Scope Z_scope.
 
+(* region r encloses s: s lies in r's graph or, recursively, in the graph of a region that does *)
+Inductive Encloses (h : hier) (r : name) : name -> Prop :=
+| Enc_child s ns : find h s = Some ns -> n_parent ns = r -> Encloses h r s
+| Enc_up s ns : find h s = Some ns -> Encloses h r (n_parent ns) -> Encloses h r s.
+
+Fixpoint enclosesb (h : hier) (fuel : nat) (r s : name) : bool :=
+  match fuel with
+  | O => false
+  | S f =>
+    match find h s with
+    | Some ns => Z.eqb (n_parent ns) r || enclosesb h f r (n_parent ns)
+    | None => false
+    end
+  end.
+
+Lemma enclosesb_sound h r : forall fuel s, enclosesb h fuel r s = true -> Encloses h r s.
+Proof.
+  induction fuel as [|f IH]; intros s H; [discriminate|]. cbn [enclosesb] in H.
+  destruct (find h s) as [ns|] eqn:Hs; [|discriminate].
+  apply orb_true_iff in H as [H|H].
+  - apply Z.eqb_eq in H. eapply Enc_child; eauto.
+  - eapply Enc_up; eauto.
+Qed.
+
+(* what an arc to s may be renamed to: an inserted block, or a region that encloses s, or a region
+   entered at an inserted block (an inserted block that was wrapped afterwards) *)
+Definition EntersInserted (h : hier) (t : name) : Prop :=
+  exists c nc, enter_flat h (S (length h)) t = Some c /\ find h c = Some nc /\
+               forall p, n_kind nc <> KOrig p.
+
+Definition RenameOk (h : hier) (s t : name) : Prop :=
+  exists nt, find h t = Some nt /\ (is_region nt = true -> Encloses h t s \/ EntersInserted h t).
+
+Definition enters_insertedb (h : hier) (t : name) : bool :=
+  match enter_flat h (S (length h)) t with
+  | Some c => match find h c with
+              | Some nc => match n_kind nc with KOrig _ => false | _ => true end
+              | None => false
+              end
+  | None => false
+  end.
+
+Definition rename_okb (h : hier) (s t : name) : bool :=
+  match find h t with
+  | Some nt => if is_region nt then enclosesb h (S (length h)) t s || enters_insertedb h t else true
+  | None => false
+  end.
+
+Lemma rename_okb_sound h s t : rename_okb h s t = true -> RenameOk h s t.
+Proof.
+  unfold rename_okb, RenameOk. destruct (find h t) as [nt|]; [|discriminate]. intros H.
+  exists nt. split; [reflexivity|]. intros Hr. rewrite Hr in H. apply orb_true_iff in H as [H|H].
+  - left. eapply enclosesb_sound; eauto.
+  - right. unfold enters_insertedb in H. destruct (enter_flat h (S (length h)) t) as [c|] eqn:Ec; [|discriminate].
+    destruct (find h c) as [nc|] eqn:Hc; [|discriminate]. exists c, nc. split; [exact Ec|]. split; [exact Hc|].
+    intros p E. rewrite E in H. discriminate.
+Qed.
+
 (* successor tuple l' of the result against the input tuple l *)
 Definition SuccOk (g : ograph) (h : hier) (l l' : list name) : Prop :=
   (length l' = length l \/
    (l = [] /\ exists t, l' = [t])) /\
   (forall i t, nth_error l' i = Some t ->
      In t (names h) /\
-     (nth_error l i = Some t \/ ~ In t (onames g))).
+     (nth_error l i = Some t \/
+      (~ In t (onames g) /\ forall s, nth_error l i = Some s -> RenameOk h s t))).
 
 Record Conserved (g : ograph) (h : hier) : Prop := {
   cs_nodup_h : NoDup (names h);
   cs_nodup_g : NoDup (onames g);
   (* every input block is there (once, names being unique), same payload,
-     same arity, position-wise same or renamed to something new *)
+     same arity, position-wise same or renamed to something new: an inserted block,
+     a region that encloses the old successor, or a region entered at an inserted block *)
   cs_kept : forall ob, In ob g ->
       exists n, find h (o_name ob) = Some n /\ n_kind n = KOrig (o_payload ob) /\
                 SuccOk g h (o_succ ob) (n_jt n);
@@ -28,14 +88,15 @@ Fixpoint succ_okb (g : ograph) (h : hier) (l l' : list name) : bool :=
   match l', l with
   | [], [] => true
   | t :: r', s :: r =>
-    zmem t (names h) && (Z.eqb t s || negb (zmem t (onames g))) && succ_okb g h r r'
+    zmem t (names h) && (Z.eqb t s || (negb (zmem t (onames g)) && rename_okb h s t)) && succ_okb g h r r'
   | _, _ => false
   end.
 
 Lemma succ_okb_sound g h l : forall l', succ_okb g h l l' = true ->
   length l' = length l /\
   forall i t, nth_error l' i = Some t ->
-     In t (names h) /\ (nth_error l i = Some t \/ ~ In t (onames g)).
+     In t (names h) /\ (nth_error l i = Some t \/
+                         (~ In t (onames g) /\ forall s0, nth_error l i = Some s0 -> RenameOk h s0 t)).
 Proof.
   induction l as [|s r IH]; intros [|t r']; simpl; try discriminate.
   - intros _. split; [reflexivity|]. intros [|i] t; discriminate.
@@ -45,7 +106,8 @@ Proof.
     + intros [= <-]. split; [apply zmem_In; exact H1|].
       apply orb_true_iff in H2 as [H2|H2].
       * apply Z.eqb_eq in H2. subst. left; reflexivity.
-      * right. apply negb_true_iff in H2. apply zmem_false. exact H2.
+      * right. apply andb_true_iff in H2 as [H2 H2r]. split; [apply negb_true_iff in H2; apply zmem_false; exact H2|].
+        intros s0 [= <-]. apply rename_okb_sound. exact H2r.
     + apply Hp.
 Qed.
 
@@ -97,7 +159,7 @@ Proof.
       split; [right; split; [reflexivity|eauto]|].
       intros [|i] t'; simpl; [|destruct i; discriminate].
       intros [= <-]. split; [apply zmem_In; exact Ha|].
-      right. apply negb_true_iff in Hb. apply zmem_false. exact Hb.
+      right. split; [apply negb_true_iff in Hb; apply zmem_false; exact Hb|]. intros s0 Hs0. discriminate Hs0.
   - intros n p Hin Hk. specialize (H4 _ Hin). unfold only_ok in H4. rewrite Hk in H4.
     apply zmem_In. exact H4.
 Qed.
